@@ -1344,7 +1344,10 @@ def circuit_stream(ctx, cirq, n):
         dist['with_local_params'] += any('+params' in k for k in kinds)
         dist['with_tags'] += any(':tag' in k for k in kinds)
         dist['with_ctrl'] += any(':ctrl' in k for k in kinds)
-        dist['unparameterized_moment'] += any(not cirq.is_parameterized(m) for m in case['sym'])
+        try:
+            dist['unparameterized_moment'] += any(not cirq.is_parameterized(m) for m in case['sym'])
+        except Exception:
+            pass                      # reported below, where the same call is made under the handler
         exprs = [e for s in case['specs'] for e in s['exprs']]
         nontriv = len(case['specs']) >= 2 and any(isinstance(e, sympy.Basic) and e.args for e in exprs)
         ctx.count('circuit_unitary', [kinds, [sympy_srepr(e) if isinstance(e, sympy.Basic) else e for e in exprs], str(case['entries'])], nontriv,
@@ -1402,34 +1405,28 @@ def check_circuit_resolution(ctx, cirq, case, exprs):
 
 
 def blame_kind(cirq, s, kind, res, q, outer=None):
-    """For a failing sub-circuit, name why its innermost failing operation is not resolved, so that the signature is stable:
-    sub:symbolic-constant (a sympy parameter without free symbols), sub:parameter_names:<family> (the gate does not report
-    its symbols), else sub:<family>."""
-    import sympy
-    w = s['wrap']
-    if isinstance(w, tuple):
-        for inner, k in zip(w[1], spec_kinds(w[1])):
-            try:
-                pr = {} if w[3] is None else {w[3][0]: w[3][1]}
-                pr.update(outer or {})
-                cs = cirq.Circuit(cirq.CircuitOperation(cirq.FrozenCircuit(build_ops(cirq, [inner], 'sym', q), cirq.CZ(q[0], q[1])), param_resolver=pr))
-                r1 = cirq.resolve_parameters(cs, res)
-                ok = not cirq.is_parameterized(r1)
-                r1.unitary(qubit_order=q)
-            except Exception:
-                ok = False
-            if not ok:
-                if isinstance(inner['wrap'], tuple):
-                    return blame_kind(cirq, inner, k, res, q, pr)
-                sym_exprs = [e for e in inner['exprs'] if isinstance(e, sympy.Basic)]
-                names_want = set().union(*[{x.name for x in e.free_symbols} for e in sym_exprs]) if sym_exprs else set()
-                if any(not e.free_symbols for e in sym_exprs):
-                    return 'sub:symbolic-constant'
-                if set(cirq.parameter_names(build_gate(cirq, inner['sym']))) != names_want:
-                    return 'sub:parameter_names:' + inner['sym'].fam
-                return 'sub:' + inner['sym'].fam
-        return 'sub'
-    return kind
+    """Signature fragment for a failing top-level operation.  For a sub-circuit: resolve it alone, expand it completely
+    (mapped_circuit(deep=True)) and look at the first operation that is still parameterized:
+    sub:symbolic-constant      its gate has sympy parameters without free symbols (nothing to look up, never converted)
+    sub:parameter_names:<Gate> its gate is parameterized by symbols but reports no parameter names
+    sub:unresolved:<Gate>      anything else."""
+    if not isinstance(s['wrap'], tuple):
+        return kind
+    try:
+        r1 = cirq.resolve_parameters(cirq.Circuit(build_ops(cirq, [s], 'sym', q)), res)
+        for top in r1.all_operations():
+            if not isinstance(top.untagged, cirq.CircuitOperation):
+                continue
+            for op in top.untagged.mapped_circuit(deep=True).all_operations():
+                if cirq.is_parameterized(op):
+                    g = op.gate if op.gate is not None else op.untagged
+                    if not cirq.parameter_names(op):
+                        still = cirq.is_parameterized(cirq.resolve_parameters(op, {'c10_probe': 1.0}))
+                        return 'sub:parameter_names:' + type(g).__name__ if still else 'sub:symbolic-constant'
+                    return 'sub:unresolved:' + type(g).__name__
+    except Exception:
+        pass
+    return 'sub'
 
 
 # ---- simulate_sweep / run_sweep ------------------------------------------------------------------------
@@ -1609,7 +1606,10 @@ def flatten_stream(ctx, cirq, n):
                 bad = 'an operation of the flattened circuit has a different value'
             # numeric sweep over the symbols of the circuit
             t = gen_numeric_sweep(rng, case['syms'])
-            sweep = build_sweep(cirq, t)
+            try:
+                sweep = build_sweep(cirq, t)
+            except ValueError:
+                sweep = []
             if bad is None and 0 < len(sweep) <= 6:
                 cf2, sw2 = cirq.flatten_with_sweep(cs, sweep)
                 if len(sw2) != len(sweep):
